@@ -305,7 +305,14 @@ def check_superposition_and_params(ctx: Ctx, data):
                 P_[2] = cp[kp - 1]
         norm = bool(it % 2)
         kw = dict(centers_p=cp, coeffs_p=fp, alphas_p=ap) if kp else {}
-        got = GC.coulomb_potential(P_, cs, fs, as_, normalized=norm, **kw)
+        try:
+            got = GC.coulomb_potential(P_, cs, fs, as_, normalized=norm, **kw)
+        except Exception as e:  # noqa: BLE001
+            ctx.fail("corr_superposition", f"superposition:seed={ctx.seed}:{it}", type(e).__name__,
+                     f"coulomb_potential raises {type(e).__name__}: {str(e)[:80]} on admissible input (a point may coincide with a centre)",
+                     {"points": P_.tolist(), "centers_s": cs.tolist(), "coeffs_s": fs.tolist(), "alphas_s": as_.tolist(),
+                      "centers_p": cp.tolist(), "coeffs_p": fp.tolist(), "alphas_p": ap.tolist(), "normalized": norm})
+            continue
         exp = np.zeros(npts)
         for c, a, ce in zip(fs, as_, cs):
             exp += c * GC.coulomb_gaussian_s(np.linalg.norm(P_ - ce, axis=1), a, normalized=norm)
